@@ -300,7 +300,7 @@ fn dump_vtrack(prefix: &str, t: &VTrack, dict: &FeatDict, featq: &HashMap<Vec<u3
 
 fn rec_str(r: &SortTrack) -> String {
     format!(
-        "{}:{}:{}:{}:{}:{}:{}",
+        "{}:{}:{}:{}:{}:{}:{}:{}",
         r.id,
         r.length,
         r.epoch,
@@ -316,7 +316,8 @@ fn rec_str(r: &SortTrack) -> String {
             let u = uid_of_conf(r.predicted_bbox.confidence);
             if u == u32::MAX { "?".to_string() } else { u.to_string() }
         },
-        r.scene_id
+        r.scene_id,
+        r.custom_object_id.map(|x| x.to_string()).unwrap_or_else(|| "-".into())
     )
 }
 
@@ -397,7 +398,7 @@ impl Tracker {
     }
 }
 
-fn run_visual(spec: &Spec, tables: bool) {
+fn run_visual(spec: &Spec, tables: bool, strict: bool) {
     println!("spec {}", spec.to_line());
     let k = spec.k;
     let opts = spec.options();
@@ -516,7 +517,7 @@ fn run_visual(spec: &Spec, tables: bool) {
                 }
             }
         }
-        if bad {
+        if bad && strict {
             println!("call k={} j={} scene={} epoch={} dets={} recs=BADCASE", k, j, scene, epoch, det_s.join(";"));
             break;
         }
@@ -535,7 +536,7 @@ fn run_visual(spec: &Spec, tables: bool) {
             }
             Some(recs) => {
                 let rs: Vec<String> = recs.iter().map(rec_str).collect();
-                println!("call k={} j={} scene={} epoch={} dets={} recs={}", k, j, scene, epoch, det_s.join(";"), rs.join(";"));
+                println!("call k={} j={} scene={} epoch={} after={} dets={} recs={}", k, j, scene, epoch, tracker.epoch(*scene), det_s.join(";"), rs.join(";"));
             }
         }
         // tracks touched by this call (all tracks are dumped once more at the end of the history)
@@ -689,11 +690,11 @@ fn run_sort(spec: &Spec) {
     println!("end {}", k);
 }
 
-fn run_spec(spec: &Spec, tables: bool) {
+fn run_spec(spec: &Spec, tables: bool, strict: bool) {
     if spec.trk == "sort" {
         run_sort(spec)
     } else {
-        run_visual(spec, tables)
+        run_visual(spec, tables, strict)
     }
 }
 
@@ -921,6 +922,87 @@ fn gen_c12(k: usize, rng: &mut Rng) -> Spec {
     s
 }
 
+/// C01 (visual trackers): exact duplicates (same box + feature, same feature + shifted box, 2-4 copies), crowded calls,
+/// objects appearing / disappearing, with / without features, several scenes, IoU / Mahalanobis, shards 1-4.
+fn gen_c01(k: usize, rng: &mut Rng) -> Spec {
+    let mut s = base_spec(k, rng);
+    s.trk = if rng.chance(1, 3) { "bvs".into() } else { "vs".into() };
+    s.shards = 1 + rng.below(4) as usize;
+    s.idle = *rng.pick(&[1usize, 2, 3]);
+    s.hist = 1 + rng.below(3) as usize;
+    s.maxobs = *rng.pick(&[1usize, 2, 3, 5]);
+    s.minlen = 1 + rng.below(s.maxobs.min(2) as u64) as usize;
+    s.votes = 1 + rng.below(s.maxobs.min(2) as u64) as usize;
+    s.vis_cos = rng.chance(1, 3);
+    s.vis_thr = if s.vis_cos { *rng.pick(&[0.5f32, 0.9]) } else { *rng.pick(&[1.0f32, 2.0, f32::MAX]) };
+    s.quse = *rng.pick(&[0.0, 0.25]);
+    s.qcol = *rng.pick(&[0.0, 0.25, 0.5]);
+    s.minarea = 0.0;
+    let nobj = 1 + rng.below(4) as usize;
+    let dim = *rng.pick(&[2usize, 4, 8, 10]);
+    let ncalls = 4 + rng.below(14) as usize;
+    let nscenes = 1 + rng.below(3);
+    let mut ident: Vec<Vec<f32>> = vec![];
+    for _ in 0..nobj {
+        let mut v = vec![];
+        for _ in 0..dim {
+            v.push(rng.dyadic(-8, 8, 2));
+        }
+        if v.iter().all(|x| *x == 0.0) {
+            v[0] = 1.0;
+        }
+        ident.push(v);
+    }
+    let crowded = rng.chance(1, 3);
+    let mut uid: u32 = 1;
+    let mut present: Vec<bool> = (0..nobj).map(|_| rng.chance(3, 4)).collect();
+    for i in 0..ncalls {
+        let scene = rng.below(nscenes);
+        let mut dets = vec![];
+        for ob in 0..nobj {
+            if rng.chance(1, 6) {
+                present[ob] = !present[ob]; // appears / disappears
+            }
+            if !present[ob] {
+                continue;
+            }
+            let step = if crowded { 6.0 } else { 45.0 };
+            let l = 10.0 + ob as f32 * step + (i % 5) as f32 * 0.5;
+            let t = 10.0 + (i % 3) as f32 * 0.5;
+            let w = 20.0 + rng.dyadic(0, 4, 2);
+            let h = 30.0 + rng.dyadic(0, 4, 2);
+            let q = if rng.chance(1, 8) { None } else { Some(*rng.pick(&[0.5f32, 0.75, 1.0])) };
+            let feat = if rng.chance(1, 6) {
+                None
+            } else {
+                let mut v = ident[ob].clone();
+                if rng.chance(1, 2) {
+                    let lane = rng.below(dim as u64) as usize;
+                    v[lane] += rng.dyadic(-2, 2, 3);
+                }
+                if v.iter().all(|x| *x == 0.0) {
+                    v[0] = 0.125;
+                }
+                Some(v)
+            };
+            let copies = if rng.chance(1, 3) { 2 + rng.below(3) as usize } else { 1 };
+            for c in 0..copies {
+                if uid >= 2040 {
+                    break;
+                }
+                let (dl, dt) = if c == 0 || rng.chance(1, 2) { (0.0, 0.0) } else { (rng.dyadic(-8, 8, 2), rng.dyadic(-8, 8, 2)) };
+                dets.push(Det { uid, q, l: l + dl, t: t + dt, w, h, feat: feat.clone() });
+                uid += 1;
+            }
+        }
+        if rng.chance(1, 2) {
+            rng.shuffle(&mut dets);
+        }
+        s.calls.push((scene, dets));
+    }
+    s
+}
+
 fn main() {
     quiet_panics();
     let a = parse_args();
@@ -929,19 +1011,27 @@ fn main() {
             for k in 0..a.n {
                 let mut rng = Rng::new(a.seed.wrapping_mul(1_000_003).wrapping_add(k as u64));
                 let s = gen_c13(k, &mut rng, a.tier == "thorough" && k % 4 == 0);
-                run_spec(&s, false);
+                run_spec(&s, false, true);
             }
         }
         "c12" => {
             for k in 0..a.n {
                 let mut rng = Rng::new(a.seed.wrapping_mul(7_000_003).wrapping_add(k as u64));
                 let s = gen_c12(k, &mut rng);
-                run_spec(&s, true);
+                run_spec(&s, true, true);
+            }
+        }
+        "c01" => {
+            for k in 0..a.n {
+                let mut rng = Rng::new(a.seed.wrapping_mul(9_000_011).wrapping_add(k as u64));
+                let s = gen_c01(k, &mut rng);
+                run_spec(&s, true, false);
             }
         }
         "replay" => {
             let txt = std::fs::read_to_string(a.file.expect("--file")).unwrap();
             let tables = !a.rest.iter().any(|x| x == "--notables");
+            let strict = !a.rest.iter().any(|x| x == "--lax");
             for line in txt.lines() {
                 let line = line.trim();
                 if line.is_empty() {
@@ -949,7 +1039,7 @@ fn main() {
                 }
                 let line = line.strip_prefix("spec ").unwrap_or(line);
                 let s = Spec::parse(line);
-                run_spec(&s, tables);
+                run_spec(&s, tables, strict);
             }
         }
         _ => {
